@@ -234,3 +234,37 @@ def write_evidence(pid, tier, seed, coverage, assumptions, wall, violations):
     tmp = os.path.join(VERIF, "evidence", pid + ".json.tmp")
     json.dump(ev, open(tmp, "w"), indent=1)
     os.replace(tmp, os.path.join(VERIF, "evidence", pid + ".json"))
+
+
+# ----------------------------------------------------------------------------- translators
+
+def build_translator(name, log):
+    out = os.path.join(WORK, "bin", "tr-" + name)
+    os.makedirs(os.path.dirname(out), exist_ok=True)
+    with Lock("gotr"):
+        rc, o = run(["go", "build", "-o", out, "./cmd/" + name], cwd=os.path.join(VERIF, "translator"), env=goenv(), timeout=600)
+    log.write(o)
+    return rc, o, out
+
+
+def run_translator(name, gen_file, log, extra_args=()):
+    """Deletes the generated file, rebuilds the translator, regenerates. Returns (ok, message)."""
+    target = os.path.join(LEAN, "TinodeVerif", "Gen", gen_file)
+    rc, o, binp = build_translator(name, log)
+    if rc != 0:
+        return False, "translator does not build: " + o[-500:]
+    with Lock("lake"):
+        if os.path.exists(target):
+            os.remove(target)
+        rc, o = run([binp, REPO, target] + list(extra_args), timeout=600)
+        log.write(o)
+        if rc != 0 or not os.path.exists(target):
+            # keep the project buildable: an empty stub makes every dependent theorem fail loudly
+            open(target, "w").write("/- translator failed: " + o.replace("-/", "- /")[-400:] + " -/\n")
+            return False, o.strip()[-500:]
+    return True, "regenerated " + gen_file
+
+
+def driver_lines(lines, mode="model"):
+    p = subprocess.run([DRIVER, mode], input="\n".join(lines) + "\n", stdout=subprocess.PIPE, stderr=subprocess.PIPE, text=True)
+    return p.stdout.split("\n")[:len(lines)]
